@@ -329,6 +329,19 @@ func runACLHistory(tr *Trace, h int, r *rand.Rand, length int, cfgFile string, t
 				if r.Intn(2) == 0 {
 					toks = append(toks, aclTok{"rkey", pick(r, aclKeyPats)})
 				}
+			} else if r.Intn(5) == 0 {
+				// an account whose categories are listed one by one - all those of one probe command and a few
+				// more - and, half of the time, one of them taken away again: an explicit include list and the
+				// exclude list both apply
+				pc := cats[pick(r, aclProbes).name]
+				toks = []aclTok{{"on", ""}, {"nopass", ""}, {"allkeys", ""}, {"allchannels", ""}}
+				for _, c := range pc {
+					toks = append(toks, aclTok{"cat+", c})
+				}
+				toks = append(toks, aclTok{"cat+", pick(r, aclCats)})
+				if len(pc) > 0 && r.Intn(2) == 0 {
+					toks = append(toks, aclTok{"cat-", pick(r, pc)})
+				}
 			} else if r.Intn(2) == 0 {
 				// a usable account: enabled, with a credential, and some breadth
 				toks = append([]aclTok{{"on", ""}, {pick(r, []string{"pw", "hash", "nopass"}), "p1"}}, toks...)
